@@ -4,7 +4,13 @@ EXTENDS DepDomain, GenLib
 CONSTANTS Mode, Kind, MaxAlts, SetEntries
 
 Texts == {RenderDep(r.dep, r.style, r.order) : r \in Renderings}
-DepVecs == {[k |-> Kind, text |-> t] : t \in Texts}
+\* degenerate architecture names (empty components) inside otherwise ordinary fields: accepted by the parser, so
+\* the round-trip law speaks about them
+foo == <<102, 111, 111>>
+Degenerate == {foo \o <<SP, LBRACK, HYPHEN, HYPHEN, RBRACK>>, foo \o <<SP, LBRACK, HYPHEN, HYPHEN, SP>> \o amd64 \o <<RBRACK>>,
+               foo \o <<COLON, HYPHEN, HYPHEN>>, foo \o <<SP, LBRACK, HYPHEN, RBRACK>>, foo \o <<SP, LBRACK, BANG, HYPHEN, HYPHEN, RBRACK>>,
+               foo \o <<SP, LBRACK>> \o amd64 \o <<HYPHEN, HYPHEN, RBRACK>>}
+DepVecs == {[k |-> Kind, text |-> t] : t \in Texts \cup Degenerate}
 
 \* ---- architecture names (C05) ------------------------------------------------
 bKf == <<107, 102, 114, 101, 101, 98, 115, 100>>  bMusl == <<109, 117, 115, 108>>
@@ -13,7 +19,9 @@ ArchNames == Comps8 \cup {a \o <<HYPHEN>> \o c : a \in Comps8, c \in Comps8}
              \cup {a \o <<HYPHEN>> \o o \o <<HYPHEN>> \o c : a \in Comps8, o \in Comps8, c \in Comps8}
 Comps4 == {bAny, bGnu, bLinux, amd64}
 ArchNames4 == {a \o <<HYPHEN>> \o o \o <<HYPHEN>> \o c \o <<HYPHEN>> \o e : a \in Comps4, o \in Comps4, c \in Comps4, e \in Comps4}
-ArchVecs == {[k |-> "arch_rt", name |-> n] : n \in ArchNames \cup ArchNames4}
+CompsE == {<<>>, bAny, amd64}
+ArchNamesE == {a \o <<HYPHEN>> \o c : a \in CompsE, c \in CompsE} \cup {a \o <<HYPHEN>> \o o \o <<HYPHEN>> \o c : a \in CompsE, o \in CompsE, c \in CompsE}
+ArchVecs == {[k |-> "arch_rt", name |-> n] : n \in ArchNames \cup ArchNames4 \cup ArchNamesE}
 
 \* ---- C06 domain: "all" plus {any,x,y,z}^3 --------------------------------------
 Comp == {bAny, <<120>>, <<121>>, <<122>>}
